@@ -396,6 +396,26 @@ def check_consumer(chk, prefix, want=("C03", "C05", "C06", "C01")):
     eng.loop_handlers[(FOREVER, "while", 1)] = mk_drain("overflow")
     eng.loop_handlers[(FOREVER, "while", 2)] = mk_drain("main")
 
+    def drain_by_shape(eng_, node, st_):
+        """`while not Q.empty(): ...` where Q evaluates to one of the two queues of THIS state, met outside its usual position (the failure handler's
+        drain loop extracted into a helper and called once per queue): the same drain contract applies, chosen by the queue object"""
+        import ast as _ast
+        t = node.test
+        if not (isinstance(t, _ast.UnaryOp) and isinstance(t.op, _ast.Not) and isinstance(t.operand, _ast.Call) and isinstance(t.operand.func, _ast.Attribute)
+                and t.operand.func.attr == "empty" and not t.operand.args):
+            return None
+        try:
+            qs = eng_.ev(t.operand.func.value, st_.fork())
+        except Unsupported:
+            return None
+        if len(qs) != 1 or qs[0][0] != "val":
+            return None
+        for which in ("overflow", "main"):
+            if qs[0][1] == g0[which]:
+                return mk_drain(which)
+        return None
+    eng.loop_matchers = [drain_by_shape]
+
     fi = P.func(FOREVER)
     res = eng.run(fi, [self_], st=st)
     chk.paths += len(res)
